@@ -343,6 +343,29 @@ def u_bounds(chk):
     if ev is None:
         chk.undecided.append("pressure tail: minimiser call not captured")
         return
+    # Termination rule of the minimiser.  The assumed contract "minimize returns the minimiser of the action, whatever the units" has
+    # a precondition on the stopping rule, because scipy's default tolerances are ABSOLUTE numbers while the arguments (widths, a
+    # length) and the action (mass^3) are dimensionful:
+    #   * Nelder-Mead stops only when BOTH the simplex size (xatol) and the spread of the function values (fatol) are below their
+    #     thresholds; under a change of units by lam one of the two tests becomes stricter (lengths scale with 1/lam, the action with
+    #     lam^3), never both looser, so the stopping point is at least as converged in one of the two measures: accepted, and declared;
+    #   * Powell uses relative xtol/ftol: accepted;
+    #   * the gradient-based methods (L-BFGS-B, BFGS, CG, TNC, SLSQP, trust-constr, ...) stop as soon as ONE absolute test (gtol on a
+    #     gradient of dimension mass^4, or ftol with max(|f|, 1)) passes: in small units they stop at the starting point. Not covariant.
+    #   * explicit tol/options: not analysed -> undecided.
+    method = ev.get("method")
+    fn = "equationOfMotion.EOM._intermediatePressureResults"
+    if ev.get("tol") is not None or ev.get("options") is not None or ev.get("other"):
+        chk.undecided.append(f"_intermediatePressureResults: minimiser called with explicit tolerances/options ({ev.get('other')}): stopping rule not analysed")
+    elif method in ("Nelder-Mead", "Powell"):
+        chk.vc("_intermediatePressureResults.minimiser.stopping-rule-is-unit-safe", [], sp.true, func=fn, kind="units", meta={"method": method})
+        declared("EOM._intermediatePressureResults", "Nelder-Mead default xatol = fatol = 1e-4 (absolute; both must hold, see contracts/C07_units.py u_bounds)")
+    elif method in ("L-BFGS-B", "BFGS", "CG", "TNC", "SLSQP", "trust-constr", "Newton-CG", "COBYLA", "COBYQA", "dogleg", "trust-ncg", "trust-exact", "trust-krylov", None):
+        chk.vc("_intermediatePressureResults.minimiser.stopping-rule-is-unit-safe", [], sp.false, func=fn, kind="units",
+               meta={"method": str(method), "reason": "default stopping rule passes as soon as one ABSOLUTE tolerance (gtol / ftol / rhobeg..) is met; "
+                     "gradient of the action has dimension mass^4, lengths 1/mass"})
+    else:
+        chk.undecided.append(f"_intermediatePressureResults: minimiser method {method!r} not analysed")
     x0 = as_array(ev["x0"]).reshape(-1)
     lb = as_array(ev["lb"]).reshape(-1)
     ub = as_array(ev["ub"]).reshape(-1)
@@ -350,7 +373,6 @@ def u_bounds(chk):
     sd = {"Tnucl": 1, "wmin": 0, "wmax": 0, "omin": 0, "omax": 0, "multiplier": 0}
     for f in range(c9.NF):
         sd.update({f"width{f}_in": -1, f"offset{f}_in": 0})
-    fn = "equationOfMotion.EOM._intermediatePressureResults"
     ok = len(x0) == len(dims) == len(lb) == len(ub)
     chk.vc("_intermediatePressureResults.bounds.shape", [], sym.to_sym(bool(ok)), func=fn, kind="units")
     if ok:
